@@ -19,6 +19,11 @@
 #     such a sender waits and must be sent on the instance the renewal installed: InvLateOnNew). A duplicate
 #     number is attributed to the known gate gap only when the as-is model predicts one for that very
 #     schedule; otherwise it is a new violation.
+#     Independent of the seed, every schedule of the pinned model (sender, then sender, then the renewal;
+#     <= 3 chunks; exhaustive) is replayed, and every forced schedule ends with the server's send path:
+#     response / response with ended context / response / 3-chunk response abandoned after 1 chunk /
+#     response / 3-chunk response abandoned after 2 chunks / response. The free runs abandon 3-chunk
+#     requests and responses after one or two chunks as well.
 #  4. Free-running runs: senders with 1-3 chunk messages, multi-chunk responses from several server
 #     goroutines, renewals in between, counters started just below the wrap point, None and
 #     Basic256Sha256/SignAndEncrypt.
@@ -54,6 +59,8 @@ def body(run):
         lambda: run.tlc("ScSend", "ScSend", "ScSend_dev_earlyfail.cfg", expect="violation", count=False, workers=1,
                         label="demo (repaired d8b779a): a send failing before its first chunk keeps its number"),
         lambda: exe.__setitem__(1, run.go_build("sccorr")),
+        lambda: run.tlc("ScSend", "ScSend", "ScSend_gen_pinned.cfg", mode="gen", count=False, timeout=1500,
+                        label="pinned schedules (exhaustive, seed-independent): sender, sender, renewal; <= 3 chunks; every ending of a message"),
     ]
     if not q:
         jobs.append(lambda: run.tlc("ScSend", "ScSend", "ScSend_mc_t.cfg", label="contract: 3 senders x <=3 chunks", workers=6, timeout=3000))
@@ -78,6 +85,12 @@ def body(run):
     na = [b for b in good if b not in ab and b not in la]
     third = ngood // 3
     sample += rnd.sample(ab, min(third, len(ab))) + rnd.sample(la, min(third, len(la))) + rnd.sample(na, min(ngood - 2 * third, len(na)))
+    # the pinned schedules are always replayed, all of them: every ending of a message (whole, failed before the
+    # first chunk, abandoned after 1 of 2, 1 of 3, 2 of 3 chunks) followed by a further message on the same instance
+    pinned = res[9].rows
+    if not any(st["to"] == "abort" for b in pinned for st in b["sched"]):
+        raise vf.Inconclusive("the pinned generation produced no schedule with an abandoned message")
+    sample = pinned + sample
     cases = [{"n": i, "mode": "sched", "sched": b["sched"]} for i, b in enumerate(sample)]
     # what the as-is model (gate gap only) predicts for each schedule: a duplicate number or a clean wire;
     # and whether a sender's call was issued while the renewal held the gate
@@ -138,7 +151,8 @@ def body(run):
             for e in evs:
                 e["tr"] = demo_tr
                 e.pop("who", None)
-            evs[len(evs) // 2]["lo"] = (evs[len(evs) // 2]["lo"] + 2) % 65536
+            mid = next(j for j in range(len(evs) // 2, len(evs)) if evs[j]["type"] == "MSG")   # not an ABORT marker
+            evs[mid]["lo"] = (evs[mid]["lo"] + 2) % 65536
             lines += [json.dumps(e) for e in evs]
             break
     tr = run.tlc("ScSend", "ScSendTrace", "ScSendTrace.cfg", mode="gen", files={"trace.ndjson": "\n".join(lines) + "\n"},
